@@ -18,7 +18,7 @@ RULE = ("cases from rng(seed, 17, 0, i): object category = i mod 6 of pose / ver
         "size, other id, other edge class, other estimate kind/size, other information shape, shapes that differ but broadcast to an all-zero difference, instance of a subclass, one vertex's pose swapped after construction for its equal-size sibling class (also in graphs of 64-130 vertices), extra element, swapped order; graphs whose vertices span scales 1e-3..1e4); tol in 10^U(-12,-2); both directions evaluated. "
         "distinct = fingerprint(x, mutation); non-trivial = mutation other than copy with a decided expectation.")
 REQ = ["eval:equals-never-raises", "eval:equals-expected-true", "eval:equals-expected-false", "cat:pose", "cat:vertex", "cat:odo", "cat:lm", "cat:custom", "cat:graph", "mut:copy",
-       "mut:perturb_below", "mut:perturb_above", "mut:class_same_size", "mut:class_other_size", "mut:id", "mut:edge_class", "mut:estimate_size", "mut:broadcastable_shape", "mut:vertex_class_swapped", "mut:views_into_one_table", "class:compared_with_debug_logging_enabled", "mut:loaded_vs_built_from_its_lists", "class:graph_64+_vertices", "mut:information_shape",
+       "mut:perturb_below", "mut:perturb_above", "mut:class_same_size", "mut:class_other_size", "mut:id", "mut:edge_class", "mut:estimate_size", "mut:broadcastable_shape", "mut:vertex_class_swapped", "mut:views_into_one_table", "class:compared_with_debug_logging_enabled", "mut:loaded_vs_built_from_its_lists", "class:copy_made_with_the_copy_module", "class:graph_64+_vertices", "mut:information_shape",
        "mut:graph_extra_element", "mut:graph_order", "mut:offset", "mut:offset_id", "mut:edge_subclass", "class:graph_multi_scale", "class:default_tol_argument_omitted", "mut:ids_container", "mut:pose_subclass", "class:graphs_used_and_restored_before_comparison"]
 PLAN = {
     "quick": {"cases": 12000, "soft_s": 60, "min_nontrivial": 3000, "require": REQ},
@@ -335,6 +335,12 @@ def elem_case(ctx, cat, rng, tol):
         exp_xy = exp_yx = False
     try:
         y = subclass_instance(x) if mut == "edge_subclass" else build_obj(cat, s2)
+        if mut == "copy" and rng.random() < 0.5:
+            # "its copy" also means what the standard library makes of it
+            import copy as _copy
+
+            y = _copy.deepcopy(x) if rng.random() < 0.5 else _copy.copy(x)
+            ctx.count("class:copy_made_with_the_copy_module")
         if mut == "pose_subclass":
             # the same numbers held in an instance of a user subclass of the pose class (pose itself / vertex pose / edge estimate)
             if cat == "pose":
